@@ -14,6 +14,7 @@ import LdkModel.Proofs.Framing
 import LdkModel.Proofs.PeerMsgs
 import LdkModel.Generated.NoiseConsts
 import LdkModel.Generated.PeerSizes
+import LdkModel.Proofs.PeerWriteE2E
 namespace Ldk.C15
 open Ldk.Noise Ldk.Framing
 
@@ -738,5 +739,144 @@ theorem size_bounds_match_source :
     simp [PeerSizes.TYPE_BYTES, PeerSizes.warningBodySize, PeerSizes.CHANNEL_ID_LEN]; omega
   · intro n
     simp [replyChannelRangeLen, PeerSizes.TYPE_BYTES, PeerSizes.replyChannelRangeBodySize]; omega
+
+/-! ### the OUTBOUND path: enqueue_message / do_attempt_write_data / write_buffer_space_avail / timer / broadcast
+
+    `PeerWrite.run c sched k ops` folds ANY list of entry-point calls (`PeerWrite.Op`: process_events with
+    any handler messages, write_buffer_space_avail, gossip broadcasts, received pongs / messages, timer
+    ticks, backlog changes — each with any refill sources) over a connection, against ANY acceptance
+    schedule `sched` (the i-th send_data call takes any `0 ≤ n ≤ len` bytes). -/
+section Outbound
+open Ldk.PeerWrite
+
+/-- the connection right after the handshake: nothing queued -/
+def conn0 (s : Sender) (bl : Bool) : Conn := { p := WPeer.fresh s, bl := bl, alive := true }
+
+/-- **Outbound bytes are written in order, once.** For every op sequence and every acceptance schedule:
+    the bytes the socket accepted, followed by the bytes still queued (the unwritten rest of the front
+    buffer, then the other buffers), are exactly the concatenation of every buffer ever queued, in queue
+    order.  So the accepted stream is a PREFIX of that concatenation: no byte is re-sent, skipped or
+    reordered, whatever partial counts `send_data` returned.  (The proof unfolds the translated
+    `advanceOffset` / `bufferDone`: setting the offset instead of advancing it breaks it.) -/
+theorem outbound_bytes_in_order (sched : Nat → Option Nat) (s : Sender) (bl : Bool) (ops : List Op) :
+    let p := (run c sched (conn0 s bl) ops).p
+    p.wire ++ p.remaining = p.queued ∧ p.wire <+: p.queued := by
+  intro p
+  have h : Inv p := inv_run c sched ops (conn0 s bl) (inv_fresh s)
+  exact ⟨h.1, ⟨p.remaining, h.1⟩⟩
+
+/-- … and the offset always points into the front buffer (the slice `&next_buff[offset..]` of
+    do_attempt_write_data never panics), `0` when the queue is empty -/
+theorem outbound_offset_in_range (sched : Nat → Option Nat) (s : Sender) (bl : Bool) (ops : List Op) :
+    let p := (run c sched (conn0 s bl) ops).p
+    p.off ≤ (p.out.headD []).length :=
+  (inv_run c sched ops (conn0 s bl) (inv_fresh s)).2
+
+/-- **Buffer limits drop gossip only.** `enqueue_message` (every channel / control / custom message, the
+    replies the node builds, its pings) consults no limit: whatever is already queued — any number of
+    buffers, any sizes, any `msgs_sent_since_pong` — a message that fits a frame is encrypted and appended,
+    and the broadcast queue is untouched; whereas a gossip broadcast is skipped exactly when the translated
+    `buffer_full_drop_gossip_broadcast() && !allow_large_buffer` holds (or it exceeds a frame). Together
+    with `outbound_bytes_in_order` (nothing leaves the queue except through the socket) a queued channel
+    message is never lost. -/
+theorem buffer_limits_drop_gossip_only (p : WPeer) (m : Bytes) :
+    (m.length ≤ Ldk.LN_MAX_MSG_LEN →
+      (enqueue c p m).2 = true ∧ (enqueue c p m).1.out = p.out ++ [(frame c p.snd m).1]
+        ∧ (enqueue c p m).1.gossip = p.gossip)
+    ∧ (∀ allowLarge capTotal, (broadcast p m allowLarge capTotal).2 = false ↔
+        ((capTotal > PeerWriteGen.OUTBOUND_BUFFER_SIZE_LIMIT_DROP_GOSSIP ∧ allowLarge = false)
+          ∨ m.length > Ldk.LN_MAX_MSG_LEN))
+    ∧ (∀ allowLarge capTotal, (broadcast p m allowLarge capTotal).1.out = p.out) := by
+  refine ⟨enqueue_fits c p m, ?_, ?_⟩
+  · intro al cap
+    unfold broadcast PeerWriteGen.broadcastSkips PeerWriteGen.bufferFullDropGossip
+    by_cases h1 : cap > PeerWriteGen.OUTBOUND_BUFFER_SIZE_LIMIT_DROP_GOSSIP <;> cases al <;>
+      by_cases h2 : m.length > Ldk.LN_MAX_MSG_LEN <;> simp [h1, h2]
+  · intro al cap
+    unfold broadcast
+    split
+    · rfl
+    · split <;> rfl
+
+/-- **End to end: what the peer's PeerManager delivers is exactly what was sent.** Take any op sequence
+    (any interleaving of process_events / write_buffer_space_avail / timer / broadcast / pong ops), ANY
+    partial-write schedule of the socket, and a moment at which the queue has been written out
+    (`out = []`; that an all-accepting socket gets there is validated by the c15write drain phase, not proved); cut the bytes the socket accepted into reads in ANY way
+    and feed them to the peer's `do_read_event` (the mirror receiver of `transport_delivers`): it
+    delivers exactly the plaintext messages that were encrypted, in order, stays connected and in sync
+    with the sender.  `MsgsOK`: every message carries its 2-byte type (≤ 65535 is enforced by the model). -/
+theorem outbound_then_inbound_delivers (hc : AeadOK c) (sched : Nat → Option Nat) (s : Sender) (bl : Bool)
+    (ops : List Op) (chunks : List Bytes) :
+    let p := (run c sched (conn0 s bl) ops).p
+    MsgsOK p.plains.reverse → p.out = [] → chunks.flatten = p.wire →
+    recvChunks c (Receiver.mirrorOf s) chunks = (p.plains.reverse, some (Receiver.mirrorOf p.snd)) := by
+  intro p hm ho hch
+  have hi : Inv p := inv_run c sched ops (conn0 s bl) (inv_fresh s)
+  have hs : SInv c s p := sinv_run c s sched ops (conn0 s bl) (sinv_fresh c s)
+  have hw : p.wire = (sendAll c s p.plains.reverse).1 := by
+    have h1 := hi.1
+    rw [ho] at h1
+    simp only [List.flatten_nil, List.drop_nil, List.append_nil] at h1
+    rw [hs]; exact h1
+  have := transport_delivers c hc s p.plains.reverse hm chunks (by rw [hch, hw])
+  rw [this, hs]
+
+/-- … and at ANY moment (queue not written out): the accepted bytes are a prefix of the ciphertext of the
+    messages encrypted so far, so — by `truncation_delivers_prefix` / `tamper_disconnects` — the peer can
+    only ever have been handed a prefix of that message sequence. -/
+theorem outbound_wire_is_ciphertext_prefix (sched : Nat → Option Nat) (s : Sender) (bl : Bool) (ops : List Op) :
+    let p := (run c sched (conn0 s bl) ops).p
+    p.wire <+: (sendAll c s p.plains.reverse).1 := by
+  intro p
+  have hi : Inv p := inv_run c sched ops (conn0 s bl) (inv_fresh s)
+  have hs : SInv c s p := sinv_run c s sched ops (conn0 s bl) (sinv_fresh c s)
+  rw [hs]
+  exact ⟨p.remaining, hi.1⟩
+
+/-- **Read pausing.** Every loop iteration of do_attempt_write_data that calls `send_data` (the queue is
+    non-empty after the refills, or the call is forced) passes `resume_read = should_read` and leaves
+    `sent_pause_read = !should_read`, where `should_read` is the translated expression evaluated on the
+    queue AT THE TIME OF THE CALL: reads are paused iff `OUTBOUND_BUFFER_LIMIT_READ_PAUSE` (12) or more
+    buffers are queued, or gossip processing is backlogged and a channel_announcement arrived since. -/
+theorem read_pause_rule (sched : Nat → Option Nat) (bl : Bool) (p : WPeer) (src : Src) (force : Bool)
+    (hcall : (refill c p src).1.out ≠ [] ∨ force = true) :
+    let q := (shouldRead (refill c p src).1 bl).1
+    (iter c sched bl p src force).1.sentPause
+      = !(PeerWriteGen.shouldRead q.out.length bl q.annSince)
+    ∧ ((iter c sched bl p src force).1.sentPause = true ↔
+        (12 ≤ q.out.length ∨ (bl = true ∧ q.annSince = true))) := by
+  intro q
+  have hq : q.out = (refill c p src).1.out := by cases bl <;> rfl
+  have h1 : (iter c sched bl p src force).1.sentPause = !(PeerWriteGen.shouldRead q.out.length bl q.annSince) := by
+    unfold iter
+    simp only
+    rw [writeOnce_pause sched _ _ force (by rw [← hq] at hcall; exact hcall)]
+    rfl
+  refine ⟨h1, ?_⟩
+  rw [h1]
+  unfold PeerWriteGen.shouldRead PeerWriteGen.OUTBOUND_BUFFER_LIMIT_READ_PAUSE
+  cases bl <;> cases q.annSince <;> simp <;> omega
+
+/-- the entry rule of do_attempt_write_data: a stale flag (`should_read == sent_pause_read`) forces one
+    `send_data` call even with an empty queue and `awaiting_write_event` set, and so does
+    write_buffer_space_avail -/
+theorem stale_flag_forces_a_call (force sr sp : Bool) :
+    PeerWriteGen.forceOnEntry force sr sp = (force || (sr == sp))
+    ∧ (∀ awaiting, sr = sp → PeerWriteGen.loopCond (PeerWriteGen.forceOnEntry force sr sp) awaiting = true) := by
+  refine ⟨rfl, ?_⟩
+  intro aw h
+  subst h
+  cases force <;> cases sr <;> cases aw <;> rfl
+
+-- non-vacuity: a run on the toy crypto with partial writes (3 bytes, then 0, then everything)
+def wops : List Op := [.events [m1, m2] false Src.none, .writeAvail Src.none, .broadcast m1 false 0, .writeAvail Src.none]
+def wsched : Nat → Option Nat := fun i => if i = 0 then some 3 else if i = 1 then some 0 else none
+example : (run toy wsched (conn0 s0 false) wops).p.out = []
+    ∧ (run toy wsched (conn0 s0 false) wops).p.plains.reverse = [m1, m2, m1]
+    ∧ ((run toy wsched (conn0 s0 false) wops).p.log.map (fun x => (x.data.length, x.acc))).reverse
+        = [(37, 3), (34, 0), (34, 34), (36, 36), (37, 37)] := by decide
+example : (broadcast (WPeer.fresh s0) m1 false 131073).2 = false ∧ (enqueue toy (WPeer.fresh s0) m1).2 = true := by decide
+
+end Outbound
 
 end Ldk.C15
